@@ -48,6 +48,7 @@ class PrescribedReadable extends Readable {
     constructor(chunks) {
         super({highWaterMark: 1});
         this.chunks = chunks.slice();
+        this.total_chunks = chunks.length;
         this.emitted = [];
         this.ended = false;
         let orig_emit = this.emit;
@@ -79,10 +80,13 @@ async function next_record(it, stream) {
     p = Promise.resolve(p).then((r) => { state.settled = true; state.rec = r; }, (e) => { state.settled = true; state.err = e; });
     if (!stream) { await p; return state; }
     let idle_after_end = 0;
+    let total_turns = 0;
     while (!state.settled) {
         await turns(1);
+        total_turns += 1;
         if (stream.ended || stream.destroyed) idle_after_end += 1;
         if (idle_after_end > 200) break;
+        if (total_turns > 20000 + 50 * (stream.total_chunks || 0)) break;   // e.g. the stream was paused and never resumed
     }
     if (!state.settled) state.stuck = true;
     return state;
@@ -327,6 +331,52 @@ async function op_roundtrip(c) {
     return out;
 }
 
+function* all_partitions(n) {
+    if (n == 0) { yield []; return; }
+    for (let mask = 0; mask < (1 << (n - 1)); mask++) {
+        let cuts = []; let last = 0;
+        for (let i = 0; i < n - 1; i++) { if ((mask >> i) & 1) { cuts.push(i + 1 - last); last = i + 1; } }
+        cuts.push(n - last);
+        yield cuts;
+    }
+}
+
+function observation_key(r) {
+    // When reading fails, the result is the failure (its class): how many records a consumer happened to receive before the
+    // error surfaced is not part of the statement (the bulk reader reports a stored error before any record).
+    if (r.error)
+        return JSON.stringify({error: r.error.cls, stuck: !!r.stuck});
+    return JSON.stringify({records: r.records, header: r.header, warnings: (r.warnings || []).slice().sort(), error: null, stuck: !!r.stuck});
+}
+
+async function op_stream_vs_bulk(req) {
+    // differential monitor inside node: the stream reader under prescribed chunkings vs the bulk reader on the same bytes
+    let runs = 0, cases_done = 0, mismatches = [], traces = 0, bulk_errors = 0, nontrivial = 0;
+    for (let c of req.cases) {
+        let n = c.bytes_hex.length / 2;
+        let base = {bytes_hex: c.bytes_hex, encoding: c.encoding, delim: c.delim, policy: c.policy, has_header: !!c.has_header, comment_prefix: c.comment_prefix || null};
+        let bulk = await op_read(Object.assign({chunks: null}, base));
+        let bulk_key = observation_key(bulk);
+        if (bulk.error) bulk_errors += 1;
+        cases_done += 1;
+        let parts = c.partitions ? c.partitions : Array.from(all_partitions(n));
+        let bad = 0;
+        for (let chunks of parts) {
+            let st = await op_read(Object.assign({chunks: chunks}, base));
+            runs += 1;
+            if (st.emitted && st.emitted.length == chunks.filter((x) => x > 0).length) traces += 1;
+            if (observation_key(st) !== bulk_key) {
+                bad += 1;
+                if (bad <= 2 && mismatches.length < 40) mismatches.push({case: c, chunks: chunks, stream: st, bulk: bulk});
+            }
+        }
+        if (bad) c.bad = bad;
+    }
+    let bad_total = 0;
+    for (let c of req.cases) bad_total += (c.bad || 0);
+    return {runs: runs, cases: cases_done, mismatches: mismatches, mismatch_runs: bad_total, faithful_traces: traces, bulk_errors: bulk_errors};
+}
+
 async function handle(req) {
     switch (req.op) {
         case 'hello': scratch_dir = req.scratch; return {ok: true, node: process.version, js_dir: JS_DIR, rbql_version: rbql.version};
@@ -341,6 +391,7 @@ async function handle(req) {
         case 'query_batch': return await op_query_batch(req);
         case 'like_batch': return await op_like_batch(req);
         case 'roundtrip_batch': { let rs = []; for (let c of req.cases) rs.push(await op_roundtrip(c)); return {results: rs}; }
+        case 'stream_vs_bulk': return await op_stream_vs_bulk(req);
         case 'like_cross': return await op_like_cross(req);
         default: return {error: {cls: 'DriverError', msg: 'unknown op ' + req.op}};
     }
